@@ -238,7 +238,7 @@ class SymWorld:
                 if abs(xv - yv) > tolq:
                     conds.append(False)
                 continue
-            if d.is_zero():
+            if d.is_zero() or _zero_mod_equations(d):
                 continue
             c = d.const_value()
             if c is not None:
@@ -262,6 +262,20 @@ class SymWorld:
             self.ctx.res.obligations.append(_ob(label, 'proved', 'normal-form'))
             return True
         return self.ctx.prove(False, label, 'did not raise')
+
+
+def _zero_mod_equations(d):
+    """d is (+-) one of the defining equations of a fresh linear-solve vector (lazylin): exact, no solver needed"""
+    from . import lazylin
+    if not lazylin.EQUATIONS:
+        return False
+    lin = lazylin.LIN_ATOMS
+    if not (d.atoms() & lin):
+        return False
+    for e in lazylin.EQUATIONS:
+        if (d - e).is_zero() or (d + e).is_zero():
+            return True
+    return False
 
 
 def _ob(label, status, how):
